@@ -1,6 +1,20 @@
 import TinsModel.Wire.L2.ThChainReparse
 /-
-  Whole-packet C03, second half (work in progress header; rewritten at the end)
+  **Whole-packet C03 for the L2 family, second half** — "serializing the re-parsed packet reproduces the bytes whenever the
+  innermost payload is non-empty", for stacks of any depth.
+
+  Method: (1) `serializeInto_wire`: a closed form of `PDU::serialize` over the registry's chain — `wire ps os` = derived
+  header (`hb`) ++ inner chain ++ zero trailer, layer by layer (`l2_write_eq` is the per-class closed form of
+  `write_serialization`); (2) `chain_reparse_aux` (ThChainReparse.lean) gives the re-parsed stack explicitly as `re ps os k`;
+  (3) `hb_wr`: the header a re-parsed layer writes is the header the original wrote — the derived tags / lengths are a
+  fixed point as long as the context shows the same classes and EtherTypes below (`CtxSim`, `infos_re_key`) and, where a
+  length is stored (Dot3, PPPoE), the same inner size; (4) `wire_re`: hence `wire (re os) = wire os ++ padding that reached
+  the payload`, where the trailers of the re-parsed stack vanish exactly when the padding was absorbed by the payload.
+
+  Statements: `l2_chain_reserialize_fixpoint` (full statement, a `Prop`), `l2_chain_reserialize_fixpoint_fails` (witness:
+  a Dot1Q padding on behalf of `append_padding_` above a PPPoE session — KF-C04-L2-4, object state that is not on the
+  wire), `l2_chain_reserialize_fixpoint_partial` (proved for every `Stackable` stack outside that region, `PadKept`),
+  `padKept_of_noAppend` (every stack whose Dot1Q layers do not pad — every parsed stack — is outside it).
 -/
 namespace Tins.Wire.L2
 open Tins Tins.Wire
